@@ -283,6 +283,10 @@ def explore(prop, cfg, outdir, seed, n, tier, replay, log, timeout):
         if not ok:
             r["harness_ok"] = False
             r["harness_out"] = out[-3000:]
+            if "[timeout after" in out or "test timed out" in out:
+                # the code under test hangs: the remaining parts would most likely hang as well
+                log.append("[harness] %s:%s ran into its time limit; remaining parts skipped" % (pkg, test))
+                break
     vfiles = sorted(glob.glob(os.path.join(outdir, "cases*.v")))
     # a case file may import models the property's own theorems do not depend on: build those first
     need = set()
